@@ -212,7 +212,7 @@ func propC11Cell(c c11Cell) hh.Verdict {
 			schema, typ := model.Build(root, env)
 			in := model.Map(model.KV{K: "f", V: c.Subject})
 			res = model.RunWith(schema, env, model.Exec{Mode: "parse"}, in.Go(), reflect.New(typ), opts)
-			wantCode = map[string]string{"pre-coerce": "coerce", "pre-error": ""}[c.What]
+			wantCode = "*" // a Preprocess failure "becomes an issue": the code is not part of the statement
 			return
 		}
 		n := &model.Node{Kind: c.Kind}
@@ -267,7 +267,7 @@ func propC11Cell(c c11Cell) hh.Verdict {
 	fail := func(f string, a ...any) hh.Verdict {
 		return hh.Fail("%s [%s/%s]: %s; issue: %s", c.Label, c.Mode, c.Lang, fmt.Sprintf(f, a...), is.String())
 	}
-	okCode := is.Code == wantCode
+	okCode := is.Code == wantCode || wantCode == "*"
 	if c.What == "test" && c.Kind == model.KBool && (c.Test.Name == "true" || c.Test.Name == "false") {
 		okCode = okCode || is.Code == c.Test.Name // zconst documents true/false; the implementation reports eq: either is accepted
 	}
@@ -275,6 +275,9 @@ func propC11Cell(c c11Cell) hh.Verdict {
 		return fail("code %q, expected %q", is.Code, wantCode)
 	}
 	wantType := node.ZType() // for not_nil: the pointee's type (pointers pass through to the schema type)
+	if is.Dtype == "ptr" && (c.What == "not_nil" || c.What == "not_nil2" || c.Kind == "pre:ptr") {
+		wantType = "ptr" // zconst also defines a pointer type: acceptable as long as the issue is fully described (checked below)
+	}
 	if is.Dtype != wantType {
 		return fail("type %q, expected %q", is.Dtype, wantType)
 	}
